@@ -20,9 +20,11 @@ UNIVERSES = [
     {"canon": ["a", "b", "c", "d", "e"], "lens": [2, 3, 2, 1, 2], "subs": {"p": ("a", [2, 1]), "q": ("b", [3, 1])}},
     {"canon": ["a", "b", "c", "d", "e"], "lens": [3, 2, 2, 2, 1], "subs": {"p": ("a", [3, 1, 2]), "q": ("c", [2])}},
     {"canon": ["a", "b", "c", "d"], "lens": [2, 2, 2, 4], "subs": {"p": ("d", [4, 2]), "q": ("a", [2, 1])}},
+    # six dimensions, one of them with seven items
+    {"canon": ["a", "b", "c", "d", "e", "f"], "lens": [2, 2, 2, 2, 2, 7], "subs": {"p": ("f", [6, 2, 7, 1]), "q": ("a", [2, 1])}},
 ]
 REGS = ["x", "y", "z", "w"]
-MAX_SIZE = 48
+MAX_SIZE = 64
 MAX_ABS = 2000
 
 
@@ -50,12 +52,12 @@ class Program:
         self.events = []
 
     # ---- helpers
-    def rand_dims(self, kmax=3, letters=None):
+    def rand_dims(self, kmax=6, letters=None):
         letters = letters or self.ucfg["canon"]
         while True:
             k = self.rnd.randint(0, kmax)
             ds = self.rnd.sample(letters, min(k, len(letters)))
-            if size_of(self.U, ds) <= 24:
+            if size_of(self.U, ds) <= 32:
                 return ds
 
     def rand_values(self, ds):
